@@ -76,6 +76,27 @@ type X struct {
 	R    *enum.R
 	C    *Component
 	dims []dim
+	// known minimal failing configurations per mismatch (setting name or "panic"): a later
+	// point that contains one of them and fails the same way is folded into its key without
+	// being minimised again (the enumeration is simplest-first, so minimal ones come early)
+	known map[string][]knownMin
+}
+
+type knownMin struct {
+	ch  Choice
+	key string
+}
+
+// contains reports whether ch has every non-simplest alternative of min.
+func contains(ch, min Choice) bool {
+	for si := range min {
+		for src, a := range min[si] {
+			if a != 0 && ch[si][src] != a {
+				return false
+			}
+		}
+	}
+	return true
 }
 
 func New(r *enum.R, c *Component) *X {
@@ -261,6 +282,17 @@ func (x *X) one(ch Choice) {
 	})
 	for _, m := range mm {
 		here := x.R.Here()
+		folded := false
+		for _, km := range x.known[m.what] {
+			if contains(ch, km.ch) {
+				x.R.Fail(km.key, nil, here, "")
+				folded = true
+				break
+			}
+		}
+		if folded {
+			continue
+		}
 		min := x.minimise(ch, m.what)
 		mres, mmm := x.Eval(min)
 		key, full := x.Describe(min, m.what)
@@ -273,6 +305,10 @@ func (x *X) one(ch Choice) {
 		if m.what == "panic" {
 			k = "panic|" + x.C.Name + "|" + key
 		}
+		if x.known == nil {
+			x.known = map[string][]knownMin{}
+		}
+		x.known[m.what] = append(x.known[m.what], knownMin{min, k})
 		x.R.Fail(k, map[string]any{"component": x.C.Name, "minimal_configuration": full, "effective": mres.Values, "panic": mres.Panic,
 			"reference_allows": x.Accept(min), "first_seen_in": ofull}, here, "%s with %s: %s", x.C.Name, key, msg)
 	}
